@@ -295,6 +295,55 @@ func normalizeTypeName(t types.Type) string {
 		return "map[" + normalizeTypeName(u.Key()) + "]" + normalizeTypeName(u.Elem())
 	case *types.TypeParam:
 		return fmt.Sprintf("$T%d", u.Index())
+	// ... and inside the remaining composite types, whose text would otherwise spell the parameter
+	// names of a nested func type or method (chan func(x int), interface{ M(x int) },
+	// struct{ F func(a int) }) or a type parameter by name (List[T]).
+	case *types.Chan:
+		switch u.Dir() {
+		case types.SendOnly:
+			return "chan<- " + normalizeTypeName(u.Elem())
+		case types.RecvOnly:
+			return "<-chan " + normalizeTypeName(u.Elem())
+		}
+		return "chan " + normalizeTypeName(u.Elem())
+	case *types.Interface:
+		var parts []string
+		for i := 0; i < u.NumEmbeddeds(); i++ {
+			parts = append(parts, normalizeTypeName(u.EmbeddedType(i)))
+		}
+		for i := 0; i < u.NumExplicitMethods(); i++ {
+			m := u.ExplicitMethod(i)
+			if sig, ok := m.Type().(*types.Signature); ok {
+				parts = append(parts, m.Name()+strings.TrimPrefix(signatureShape(sig), "func"))
+			}
+		}
+		if len(parts) == 0 {
+			break // interface{} / any: the plain spelling below
+		}
+		return "interface{" + strings.Join(parts, "; ") + "}"
+	case *types.Struct:
+		var parts []string
+		for i := 0; i < u.NumFields(); i++ {
+			f := u.Field(i)
+			if f.Embedded() {
+				parts = append(parts, normalizeTypeName(f.Type()))
+			} else {
+				parts = append(parts, f.Name()+" "+normalizeTypeName(f.Type()))
+			}
+		}
+		return "struct{" + strings.Join(parts, "; ") + "}"
+	case *types.Named:
+		if targs := u.TypeArgs(); targs != nil && targs.Len() > 0 {
+			var args []string
+			for i := 0; i < targs.Len(); i++ {
+				args = append(args, normalizeTypeName(targs.At(i)))
+			}
+			name := u.Obj().Name()
+			if pkg := u.Obj().Pkg(); pkg != nil {
+				name = typePathCleaner.ReplaceAllString(pkg.Path()+"."+name, "")
+			}
+			return name + "[" + strings.Join(args, ",") + "]"
+		}
 	}
 	s := t.String()
 	// Fix: Use regex to remove package paths (e.g., "github.com/pkg/")
@@ -448,6 +497,17 @@ func extractFunctionSig(fn *ssa.Function) string {
 	// This handles optimizations where simple closures become plain Functions.
 	if fn.Parent() != nil {
 		return fmt.Sprintf("closure:%s", signatureShape(fn.Signature))
+	}
+
+	// The name of an instantiation spells its type arguments, and inside a generic caller those
+	// are the caller's own type parameters BY NAME (slices.Contains[[]T T]): name the generic
+	// function and render the arguments like any other type.
+	if orig := fn.Origin(); orig != nil && orig != fn {
+		var args []string
+		for _, ta := range fn.TypeArgs() {
+			args = append(args, normalizeTypeName(ta))
+		}
+		return extractFunctionSig(orig) + "[" + strings.Join(args, ",") + "]"
 	}
 
 	if fn.Pkg != nil {
